@@ -32,6 +32,7 @@ asarray = array
 
 
 def shape(x):
+    Assumed.note("jnp.shape(x) is the shape tuple of x")
     if isinstance(x, (Sym, bool, int, float)):
         return ()
     if _is_tensor(x):
@@ -136,6 +137,34 @@ def arange(*a, **k):
     return Tensor((z3.simplify(ln),), lambda idx: start + step * idx[0])
 
 
+def mean(x, axis=None):
+    from ..tensor import Tensor, _dterm, _toreal
+
+    Assumed.note("jnp.mean = sum / count along the axis")
+    if isinstance(x, Sym):
+        return x
+    if axis is None:
+        if x.ndim != 1:
+            tot = x.sum()
+            n = Sym(z3.IntVal(1))
+            for d in x.shape:
+                n = n * d
+            return tot / n
+        return x.sum() / Sym(_toreal(_dterm(x.shape[0])))
+    if axis < 0:
+        axis += x.ndim
+    return x.sum(axis=axis) / Sym(_toreal(_dterm(x.shape[axis])))
+
+
+def repeat(x, n, axis=0):
+    from ..tensor import Tensor, _dim
+
+    Assumed.note("jnp.repeat(x, n, axis=0) of an array with leading dim 1 is n copies along axis 0")
+    if not isinstance(x, Tensor) or axis != 0 or not (isinstance(x.shape[0], int) and x.shape[0] == 1):
+        raise EngineLimit("jnp.repeat beyond (1, ...) -> (n, ...)")
+    return Tensor((_dim(n),) + tuple(x.shape[1:]), lambda idx: x.fn((z3.IntVal(0),) + tuple(idx[1:])))
+
+
 def zeros(shape, dtype=None):
     from ..tensor import Tensor
 
@@ -159,7 +188,7 @@ def ones(shape, dtype=None):
 def namespace(**extra):
     ns = types.SimpleNamespace(
         array=array, asarray=asarray, shape=shape, ndim=ndim, where=where, sum=sum, any=any,
-        minimum=minimum, maximum=maximum, log=log, exp=exp, add=add, ndarray=object, arange=arange, zeros=zeros, ones=ones,
+        minimum=minimum, maximum=maximum, log=log, exp=exp, add=add, ndarray=object, arange=arange, zeros=zeros, ones=ones, mean=mean, repeat=repeat, nan=float('nan'),
         float32="float32", int32="int32", bool_="bool", pi=3.141592653589793,
     )
     for k, v in extra.items():
